@@ -19,13 +19,19 @@ HARNESSES = [dict(name="allocator", pkg="./pkg/allocator/", test="TestVerifC01",
                   files=[("pkg/allocator/zz_verif_c01_test.go", "harness/C01/zz_verif_c01_test.go")]),
              dict(name="dhcp", pkg="./pkg/dhcp/", test="TestVerifC01Resolve", timeout=900,
                   files=[("pkg/dhcp/zz_verif_c01_resolve_test.go", "harness/C01/zz_verif_c01_resolve_test.go")])]
-# repaired: every recorded defect repaired; sharedvrf: one poolVRFs map for the three families (HEAD);
+# repaired: every recorded defect repaired; unguarded: /repo 85029df (range loops unguarded, PD prefix length
+# unvalidated); sharedvrf: additionally one poolVRFs map for the three families (before 85029df);
 # defective: additionally the two defects fixed by d00d766 / c2652db
-VARIANTS = ["repaired", "sharedvrf", "defective"]
+VARIANTS = ["repaired", "unguarded", "sharedvrf", "defective"]
 
 
 def route(case):
     return "dhcp" if case.startswith("res ") else "allocator"
+
+
+def kind(head):
+    """case kind without the x prefix (x = run in a child process with a watchdog: may not terminate)"""
+    return head[0][1:] if head[0][0] == "x" else head[0]
 
 MODEL_NEEDS_IMPL = True
 RULE = ("pool: v4/v6 ranges of 1-40 addresses at carry boundaries (octet, 2^32 near-top, 64-bit word), 0-5 "
@@ -45,9 +51,7 @@ RULE = ("pool: v4/v6 ranges of 1-40 addresses at carry boundaries (octet, 2^32 n
 TRUSTED = ["configuration strings -> pool geometry glue (default range from the network, gateway/exclude "
            "expansion) is in the OCaml driver, not in Coq",
            "pool/profile/VRF names are modelled as numbers; names containing '/' are outside the model"]
-ASSUMPTIONS = ["pool ranges have both ends in one address family and end below the all-ones address "
-               "(NewPoolAllocator does not terminate otherwise)",
-               "PD pools: prefix length <= 128 and delegated bits small enough to build the free list",
+ASSUMPTIONS = ["PD pools: delegated bits small enough to build the free list; the PD network is an IPv6 prefix",
                "each allocator call is atomic (the mutex); concurrency is not modelled here"]
 
 M32 = 0xffff00000000
@@ -446,6 +450,46 @@ def gen_overlap(rng):
     return "reg %s ; %s" % (" ".join(toks), " ".join(ops))
 
 
+MAX4, MAX6 = 0xffffffff, (1 << 128) - 1
+
+
+def gen_geometry(rng):
+    """The geometries the first round assumed away, run in a child process (x prefix): range end at the
+    all-ones address, range ends in different families, inverted ranges, PD prefix lengths above 128,
+    and the same through configuration strings (explicit range, exclude range)."""
+    k = rng.random()
+    ops = "V A1 A2 V C%s R3,%s V" % (atok(4, MAX4), atok(4, MAX4 - 1))
+    if k < 0.30:
+        fam = rng.choice([4, 6])
+        mx = MAX4 if fam == 4 else MAX6
+        hi = rng.choice([mx, mx, mx - 1, mx - 2])
+        lo = hi - rng.randint(0, 5)
+        ex = rng.choice([[], [atok(fam, hi)], [atok(fam, lo)]])
+        return "xpool %s %s %d %s; %s" % (atok(fam, lo), atok(fam, hi), len(ex), "".join(e + " " for e in ex),
+                                         "V A1 A2 V C%s R3,%s L%s V A1 A1 A1 A1 A1 A1 A1 V" % (atok(fam, hi), atok(fam, hi), atok(fam, hi)))
+    if k < 0.45:
+        a, b = atok(4, rng.choice([0x0a000001, MAX4 - 1])), atok(6, rng.choice([5, MAX6, 1 << 64]))
+        lo, hi = (a, b) if rng.random() < 0.5 else (b, a)
+        return "xpool %s %s 0 ; V C%s C%s R1,%s R2,%s L%s V A1 V" % (lo, hi, a, b, a, b, a)
+    if k < 0.55:
+        fam = rng.choice([4, 6])
+        lo = rng.randint(10, 1000)
+        return "xpool %s %s 0 ; V A1 C%s R1,%s L%s V A1" % (atok(fam, lo), atok(fam, lo - rng.randint(1, 5)), atok(fam, lo), atok(fam, lo), atok(fam, lo))
+    if k < 0.80:
+        nb, pl = rng.choice([(128, 129), (127, 129), (126, 129), (128, 130), (125, 129), (120, 200), (128, 255), (126, 128), (128, 128)])
+        net = rng.choice([0x20010db8 << 96, MAX6, rng.getrandbits(128)])
+        base = pd_base(net, nb)
+        return "xpd %d %d %d ; V A1 A2 A3 V R4,6:%d/128:128 C6:%d/128:128 L6:%d/mnil A1 A2 A3 A4 A1 A1 A1 A1 A1 V" % (
+            net, nb, pl, base, base, base)
+    # through the registry: explicit range end / exclude range
+    if k < 0.90:
+        hi = rng.choice([atok(4, MAX4), atok(4, MAX4 - 1), atok(6, 7)])
+        return "xreg 1 1 4 - 1 1 0 0 %s/29 %s %s - 0 ; A41,1,0,0 V41/1" % (atok(4, MAX4 - 7), atok(4, MAX4 - 3), hi)
+    ex = rng.choice([(atok(4, MAX4 - 2), atok(4, MAX4)), (atok(4, 0x0a000001), atok(6, 9)), (atok(6, 9), atok(4, 0x0a000001)),
+                     (atok(4, 0x0a000003), atok(4, 0x0a000002)), (atok(4, 0x0a000002), atok(4, 0x0a000003))])
+    return "xreg 1 1 4 - 1 1 0 0 %s/29 - - - 1 %s %s ; A41,1,0,0 A41,1,0,0 V41/1" % (atok(4, 0x0a000000), ex[0], ex[1])
+
+
 def exhaustive_small():
     """all histories of length <= L over a 3-address pool with one exclusion and 2 sessions"""
     lo, hi = 0x0a0000fe, 0x0a000101          # 10.0.0.254 .. 10.0.1.1 (4 addresses, one excluded -> 3 assignable)
@@ -469,6 +513,8 @@ def gen_cases(rng, tier, budget):
         cases.append(gen_registry(rng, resolve=True))
     for _ in range(n * 6 // 100):
         cases.append(gen_overlap(rng))
+    for _ in range(24 if tier == "quick" else 150):
+        cases.append(gen_geometry(rng))
     # bounded-exhaustive block
     lo, hi, ex, alpha = exhaustive_small()
     L = 2 if tier == "quick" else 4
@@ -700,13 +746,19 @@ def monitor(case, impl):
     try:
         head, ops = split_case(case)
         outs = impl.split()
-        if head[0] == "pool":
+        if kind(head) == "pool":
             lo, hi, ex = pool_geometry(head)
             if lo is None or hi is None or lo[0] != hi[0]:
                 return None
             return monitor_pool(lo, hi, ex, ops, outs)
-        if head[0] == "pd":
+        if kind(head) == "pd":
             if impl.strip() == "nilalloc":
+                return None
+            if int(head[3]) > 128:
+                # nothing of length > 128 can be delegated: any answer is a violation (same address, nil mask)
+                got = [o for op, o in zip(ops, outs) if op[0] == "A" and o.startswith("p")]
+                if got:
+                    return "a PD pool with prefix length %s delegated %s to %d sessions" % (head[3], got[0][1:], len(got))
                 return None
             return monitor_pd(head, ops, outs)
         return monitor_reg(head, ops, outs[:len(ops)])
@@ -715,8 +767,9 @@ def monitor(case, impl):
 
 
 def classify(case, impl, model):
-    if impl.startswith("panic") or impl == "hang":
-        return "P", "the allocator %s on this history" % ("panicked: " + impl if impl != "hang" else "did not return")
+    if impl.startswith("panic") or impl in ("hang", "probe-died"):
+        return "P", "the allocator %s on this configuration" % (
+            "panicked: " + impl if impl.startswith("panic") else "did not return (infinite loop / unbounded allocation)")
     v = monitor(case, impl)
     if v:
         return "P", v
@@ -728,11 +781,11 @@ def classify(case, impl, model):
     a = it[k] if k < len(it) else "-"
     if m.startswith("INADMISSIBLE"):
         return "P", "op %d %s: answer %s is not admissible (%s)" % (k, op, a, m.split(":", 1)[1])
-    if k < len(ops) and op[0] in "RLPICV" and head[0] in ("pool", "pd"):
+    if k < len(ops) and op[0] in "RLPICV" and kind(head) in ("pool", "pd"):
         return "P", "op %d %s: returned %s, the proved model says %s" % (k, op, a, m)
     if k < len(ops) and op[0] in "YZ":
         return "P", "op %d %s: Resolve returned %s, the proved model says %s" % (k, op, a, m)
-    if head[0] == "reg" and (k >= len(ops) or op[0] == "V") and "=" in a + m or (k < len(ops) and op[0] == "V"):
+    if kind(head) == "reg" and (k >= len(ops) or op[0] == "V") and "=" in a + m or (k < len(ops) and op[0] == "V"):
         return "P", "%s: %s free, the proved model says %s (a lease was dropped or kept in the wrong pool)" % (
             ("op %d %s" % (k, op)) if k < len(ops) else "end of history", a, m)
     return "G", "first difference at op %d %s: impl=%s model=%s" % (k, op, a, m)
@@ -741,7 +794,33 @@ def classify(case, impl, model):
 def signature(case, impl, models):
     """Specific signatures for the recorded defects; anything else is unexplained."""
     head, ops = split_case(case)
-    if head[0] in ("reg", "res"):
+    RANGE = "pool.buildFreeList:range-loop-never-terminates"
+
+    def hangs(lo, hi):
+        """range ends (after Unmap) for which `for a := lo; a.Compare(hi) <= 0; a = a.Next()` never ends"""
+        if lo is None or hi is None:
+            return False
+        if lo[0] != hi[0]:
+            return lo[0] == 4
+        return lo[1] <= hi[1] and hi[1] == (MAX4 if hi[0] == 4 else MAX6)
+    if impl == "hang":
+        if kind(head) == "pool":
+            return RANGE if hangs(parse_addr(head[1]), parse_addr(head[2])) else "unexplained-hang"
+        if kind(head) == "reg":
+            for pf, fam, pgw, pools in parse_reg(head):
+                for q in pools:
+                    if fam != "d" and q["lo"] not in ("-", "junk") and q["hi"] not in ("-", "junk") and \
+                            hangs(parse_addr(q["lo"]), parse_addr(q["hi"])):
+                        return RANGE
+                    for j in range(0, len(q["ex"]), 2):
+                        a, b = q["ex"][j], q["ex"][j + 1]
+                        # parseExcludeRange does not Unmap its bounds
+                        if "junk" not in (a, b) and b != "-" and hangs((int(a[0]), int(a[2:])), (int(b[0]), int(b[2:]))):
+                            return RANGE
+        return "unexplained-hang"
+    if kind(head) == "pd" and int(head[3]) > 128:
+        return "prefix.NewPrefixAllocator:prefix-length-above-128"
+    if kind(head) in ("reg", "res"):
         # one poolVRFs map for three families: some "profile/pool" key is configured in two families
         # and the shared map gives one of them another VRF than its own family's configuration
         entries = parse_reg(head)
@@ -752,7 +831,7 @@ def signature(case, impl, models):
                 if own(fam, k) != shared(fam, k):
                     return "registry.poolVRFs:shared-across-families"
         return "unexplained-registry"
-    if head[0] == "pd":
+    if kind(head) == "pd":
         net, nb, pl = int(head[1]), int(head[2]), int(head[3])
         base = pd_base(net, nb)
         for op in ops:
@@ -803,7 +882,8 @@ def shrink(case):
 
 
 def distribution(cases, impl):
-    d = {"pool": 0, "pd": 0, "reg": 0, "res": 0, "ops": 0, "alloc_ok": 0, "exhausted": 0, "conflict": 0,
+    d = {"pool": 0, "pd": 0, "reg": 0, "res": 0, "xpool": 0, "xpd": 0, "xreg": 0, "hang": 0, "override_answers": 0,
+         "override_cross_vrf_answers": 0, "ops": 0, "alloc_ok": 0, "exhausted": 0, "conflict": 0,
          "contains_true": 0, "nilalloc": 0, "max_ops": 0}
     opk = {}
     for c, o in zip(cases, impl):
@@ -813,6 +893,17 @@ def distribution(cases, impl):
         d["max_ops"] = max(d["max_ops"], len(ops))
         for op in ops:
             opk[op[0]] = opk.get(op[0], 0) + 1
+        if (o or "") == "hang":
+            d["hang"] += 1
+        if head[0] in ("reg", "res"):
+            own = reg_vrfs(parse_reg(head), False)
+            for op, x in zip(ops, (o or "").split()):
+                if op[0] == "A" and x.startswith("a"):
+                    s_, pf, ov, vrf = op[2:].split(",")
+                    key = x[1:].split("=")[0]
+                    if ov != "0" and key == "%s/%s" % (pf, ov):
+                        d["override_answers"] += 1
+                        d["override_cross_vrf_answers"] += own(op[1], key) != vrf
         for x in (o or "").split():
             if x == "x":
                 d["exhausted"] += 1
